@@ -179,9 +179,10 @@ def property_theorems(module):
     return thms, examples
 
 
-def lean_check(prop):
+def lean_check(prop, tier="quick"):
     """L0 + L1: regenerate Extracted.lean, build the property module and its driver,
-    audit axioms, grep forbidden tokens.  Returns a dict; never raises on proof failure."""
+    audit axioms, grep forbidden tokens; thorough tier: re-check the compiled modules with
+    `leanchecker`.  Returns a dict; never raises on proof failure."""
     from harness import extract
 
     res = {"ok": False, "theorems": [], "examples": 0, "axioms": {}, "errors": [],
@@ -234,6 +235,15 @@ def lean_check(prop):
     if hits:
         res["errors"].append("forbidden tokens: " + "; ".join(hits[:5]))
     res["files"] = sorted(os.path.relpath(f, VERIF) for f in set(files))
+    res["leanchecker"] = None
+    if tier == "thorough" and not res["errors"]:
+        # independent re-check of the compiled .olean files of every project module the property imports
+        mods = sorted(m for m in lean_sources_for(prop.LEAN_MODULE))
+        with BuildLock():
+            p = subprocess.run(["lake", "env", "leanchecker"] + mods, cwd=LEAN_DIR, capture_output=True, text=True)
+        res["leanchecker"] = {"modules": len(mods), "exit": p.returncode}
+        if p.returncode != 0:
+            res["errors"].append("leanchecker rejected the compiled modules: " + (p.stdout + p.stderr)[-400:])
     res["ok"] = not res["errors"]
     res["build_s"] = time.time() - t0
     return res
@@ -443,9 +453,15 @@ def shrink_case(prop, case, still_fails, budget_s=20.0):
 
 def check(prop_name, tier, seed, replay=None):
     t0 = time.time()
+    root = scratch_root()
+    # isolate from the user's global signac configuration (~/.signacrc is read by every Project);
+    # must happen before signac is imported (USER_CONFIG_FN is computed at import time)
+    real_home = os.environ.get("HOME", "")
+    os.makedirs(os.path.join(root, "home"), exist_ok=True)
+    os.environ["HOME"] = os.path.join(root, "home")
+    os.environ.setdefault("VERIF_REAL_HOME", real_home)
     prop = importlib.import_module(prop_name)
     pid = prop.ID
-    root = scratch_root()
     status = 0
     out_lines = []
     ev = {
@@ -453,7 +469,7 @@ def check(prop_name, tier, seed, replay=None):
         "coverage": {}, "assumptions": [], "wall_s": 0.0, "violations": 0,
     }
     try:
-        lean = lean_check(prop)
+        lean = lean_check(prop, tier)
         rng = random.Random("%s/%s/%d" % (pid, tier, seed))
         if replay:
             with open(replay) as f:
@@ -608,6 +624,8 @@ def check(prop_name, tier, seed, replay=None):
                 "Lean 4.33.0 kernel",
                 "axioms used by the property theorems: %s" % (", ".join(axioms_used) or "none"),
                 "no sorry/admit/native_decide/bv_decide/own axioms (token grep over %d source files)" % len(lean.get("files", [])),
+                ("leanchecker re-checked %d compiled modules: exit %d" % (lean["leanchecker"]["modules"], lean["leanchecker"]["exit"]))
+                if lean.get("leanchecker") else "leanchecker: thorough tier only",
                 "harness/extract.py (Extracted.lean regenerated from the imported package: %s)"
                 % ("rewritten" if lean["extracted_rewritten"] else "unchanged"),
                 "correspondence harness harness/props/%s.py + compiled Lean driver %s" % (pid.lower(), prop.DRIVER),
